@@ -28,7 +28,9 @@ EXPLANATION = (
   "get_updates_for_removed_target_rows covers every row the reverse index reports (R2); a "
   "reference column registers itself in its target table's _back_references when created and "
   "leaves on destroy, nobody else writes that set, and the reverse index (inverse_map) is updated "
-  "from the stored value read before and after every write (R3, the latter being C05-R5). Not "
+  "from the stored value read before and after every write (R3, the latter being C05-R5), and the "
+  "method that copies a reference column and rebuilds its reverse index after clear() refills it "
+  "from the whole storage (no upper bound, no early exit). Not "
   "decided: values -- in particular that _raw_get_without computes the right remainder.")
 
 
